@@ -261,7 +261,9 @@ func (p *parser) parseVectorAggregationExpr() (e *VectorAggregationExpr, err err
 			return err
 		}
 
-		if t := p.peek(); t.Type == lexer.Number {
+		// A leading number is a parameter only if it is followed by a comma,
+		// otherwise it is a literal operand, e.g. sum(2 * rate({}[1m])).
+		if t := p.peek(); t.Type == lexer.Number && p.peekAt(1).Type == lexer.Comma {
 			param, err := p.parseInt()
 			if err != nil {
 				return err
